@@ -18,7 +18,13 @@ func vCheckStr(key string, cur, attr int, got string)  {}
 func H_value() {
 	doc := vDoc()
 	cur, attr := vContext(doc)
-	e, err := vCompileHoles(vParam("expr"))
+	var e *Expr
+	var err error
+	if vHasParam("nsmap") {
+		e, err = CompileWithNS(vParam("expr"), vNSMap(vParam("nsmap")))
+	} else {
+		e, err = vCompileHoles(vParam("expr"))
+	}
 	if err != nil {
 		vObserve("compile-error", "rejected")
 		vAssert(false, "compiles")
